@@ -1,3 +1,4 @@
+import IsobarV.Pat.Drv
 import IsobarV.Tonal.Drv
 import IsobarV.Sched.Drv
 
@@ -5,4 +6,5 @@ def main (args : List String) : IO UInt32 := do
   match args with
   | ["sched"] => IsobarV.Sched.Drv.main; return 0
   | ["tonal"] => IsobarV.Tonal.Drv.main; return 0
+  | ["pat"] => IsobarV.Pat.Drv.main; return 0
   | _ => IO.eprintln s!"usage: driver <suite>; unknown: {args}"; return 2
